@@ -118,7 +118,8 @@ def spsolve_exact(A, b):
 
 
 def work(item):
-    rdeg, ncells, rpath, nprocs, adiabatic, chi, NQ, canary = item
+    rdeg, ncells, rpath, nprocs, adiabatic, chi, NQ, canary = item[:8]
+    use_n0deriv = len(item) > 8 and item[8]          # density gradient given through the documented alternative keyword n0deriv = n0'
     W = twiddles(NQ)
     res = H.worker_result()
     m = dist.mods()
@@ -160,6 +161,9 @@ def work(item):
             class Cst:
                 CN0 = kN0 = deltaRN0 = rp = CTe = kTe = deltaRTe = None
             kw = dict(n0=n0, B=K(Bf), Te=Te, n0derivNormalised=n0dn)
+            if use_n0deriv:
+                del kw['n0derivNormalised']
+                kw['n0deriv'] = lambda r: n0dn(r) * n0(r)
             if adiabatic:
                 kw['chi'] = chi
             qn = ps.QuasiNeutralitySolver(eta, 2 * rdeg, rb, Cst, adiabaticElectrons=adiabatic, **kw)
@@ -336,7 +340,8 @@ def work(item):
 
 def float_replay(m, ps, item, rho_values=None):
     """real float pipeline (real scipy fft / spsolve) on a random real density vs numpy reference per mode"""
-    rdeg, ncells, rpath, nprocs, adiabatic, chi, NQ, _ = item
+    rdeg, ncells, rpath, nprocs, adiabatic, chi, NQ = item[:7]
+    use_n0deriv = len(item) > 8 and item[8]
     numenv.disable()
     try:
         fb = np.linspace(1, 3, ncells + 1)
@@ -398,6 +403,9 @@ def float_replay(m, ps, item, rho_values=None):
             class Cst:
                 pass
             kw = dict(n0=fn0, B=Bf, Te=fTe, n0derivNormalised=fdn)
+            if use_n0deriv:
+                del kw['n0derivNormalised']
+                kw['n0deriv'] = lambda r: fdn(r) * fn0(r)
             if adiabatic:
                 kw['chi'] = chi
             qn = ps.QuasiNeutralitySolver(eta, 2 * rdeg, rb, Cst, adiabaticElectrons=adiabatic, **kw)
@@ -459,6 +467,7 @@ def main():
         items.append((2, 2, 'nu', (2, 1), True, chi, 4, None))
         items.append((2, 2, 'nu', (1, 1), True, chi, 3, None))       # odd theta count: twiddles in Q(sqrt 3), no Nyquist mode
     items.append((2, 2, 'nu', (1, 2), False, 0, 4, None))
+    items.append((2, 2, 'nu', (1, 1), True, 0, 4, None, True))          # density gradient through the keyword n0deriv
     items.append((2, 2, 'nu', (2, 1), False, 0, 3, None))
     if not quick:
         for chi in (0, 1):
